@@ -12,7 +12,7 @@
 static struct aws_priority_queue s_q;
 static bool s_have;
 static void *s_static_heap;
-static size_t s_isz, s_nh;
+static size_t s_isz, s_nh, s_static_cap;
 static unsigned s_next_uid;
 static struct aws_priority_queue_node s_nodes[MAXH];
 
@@ -147,8 +147,15 @@ static void s_state(void) {
             printf(" h%zu=%zu", h, s_nodes[h].current_index);
         }
     }
-    printf("\n");
+    printf("\nW cap %zu\n", aws_priority_queue_capacity(&s_q));
     s_monitor();
+    /* public validity predicate and capacity: a valid queue after every op, capacity never below the size and,
+     * for static storage, exactly the item count given at init */
+    size_t cap = aws_priority_queue_capacity(&s_q);
+    bool valid = aws_priority_queue_is_valid(&s_q) && aws_priority_queue_backpointers_valid(&s_q);
+    if (!valid || cap < aws_priority_queue_size(&s_q) || (s_static_cap && cap != s_static_cap)) {
+        printf("P MONITOR is_valid=%d capacity=%zu size=%zu\n", valid, cap, aws_priority_queue_size(&s_q));
+    }
 }
 
 static void s_result_elem(const char *name, int rc, const uint8_t *p) {
@@ -218,6 +225,9 @@ int main(void) {
             for (size_t h = 0; h < MAXH; ++h) {
                 aws_priority_queue_node_init(&s_nodes[h]);
             }
+            /* the queue object is NOT zero before init: whatever an earlier user left there must not matter */
+            memset(&s_q, 0xA5, sizeof(s_q));
+            s_static_cap = stat ? cnt : 0;
             if (dyn) {
                 HC_CHECK(aws_priority_queue_init_dynamic(&s_q, hc_allocator(), cnt, isz, s_cmp) == AWS_OP_SUCCESS);
             } else {
